@@ -99,6 +99,7 @@ func chanElem(t types.Type) types.Type {
 // single-threaded run; that is reported (noblock) and execution continues as if it proceeded.
 func (e *Engine) chanSend(st *State, ch PtrV, v Value, where string) {
 	c := e.C
+	e.hookTick(st, nil, where, false)
 	if e.sharedChan(st, ch) {
 		e.chanEvent(st, EvChanSend, ch, where)
 		return
@@ -118,6 +119,7 @@ func (e *Engine) chanSend(st *State, ch PtrV, v Value, where string) {
 
 func (e *Engine) chanRecv(st *State, ch PtrV, commaOk bool, typ types.Type, where string) Value {
 	c := e.C
+	e.hookTick(st, nil, where, false)
 	var et types.Type
 	if commaOk {
 		et = typ.(*types.Tuple).At(0).Type()
@@ -175,6 +177,7 @@ func (e *Engine) chanClose(st *State, ch PtrV, where string) {
 // channel case is never ready. A blocking select with no ready case is reported (noblock).
 func (e *Engine) selectOp(fr *frame, st *State, regs map[ssa.Value]Value, x *ssa.Select, where string) Value {
 	c := e.C
+	e.hookTick(st, nil, where, false)
 	var recvT []types.Type
 	for _, s := range x.States {
 		if s.Dir == types.RecvOnly {
